@@ -23,6 +23,7 @@ From V Require Import Base.Regex Base.Re2c Gen.ScannersRe Model.Scan.
 From V Require Import Spec.Doc.
 From V Require Import Gen.Consts Model.Caps.
 From V Require Import Gen.Special Model.Special Spec.Triggers.
+From V Require Import Gen.RtOutc Spec.RoundTrip.
 Extraction Language OCaml.
 Set Extraction KeepSingleton.
 
@@ -260,4 +261,10 @@ Extraction "model.ml"
   Special.c13_find_special
   Special.c13_select_arm
   Special.c13_tables
+  RoundTrip.strip_end_list_comments
+  RoundTrip.collapse_nested_strong
+  RoundTrip.no_nested_strong
+  RoundTrip.tree_classes
+  RoundTrip.unescape_backslashes
+  RoundTrip.escape_all
 .
